@@ -34,6 +34,16 @@ Byte-level judges (real SHA-256 tagged hashes, Spec/Bip341.lean; Spec/Bech32m.le
         the (script, control block) pair that `Tr::get_satisfaction` chose for the witness commits to
         the tree's root (BIP341 script-path computation), with the right key and parity bit
   J trleafpk <key hex (33 or 32 bytes)> <script hex>   tapscript of `pk(K)` is `<x-only K> OP_CHECKSIG`
+  J rdepthspec / rmerklespec / rmerklespecl <route> <shape> <answer>   depthspec / merklespec(l) for an object obtained
+        through another construction route or observed in another state (the route is named on the line)
+  J trdepthset <route> <shape> <d:id,…>   the leaves with their depths, as a multiset, are the specification's
+        (Huffman trees: the compiler may order siblings as it likes)
+  J trrefused <class> <input> <ERR|accepted|PANIC>   an input BIP 386 / BIP 341 excludes (a `{}` node without exactly two
+        children, an uncompressed key, a fragment Tapscript lacks, depth 129) is refused with an error
+  J trpsbt <shape> <script hex,…> <internal key> <merkle root> <depth:script,…> <cb:script,…>   what a PSBT carries after
+        update + serialize + deserialize: the output's tap_tree (BIP 371 depth list) decodes to a tree with the
+        specification's Merkle root and the specification's leaves-with-depths; every (control block, script)
+        of the input's tap_scripts commits to that root with the internal key; every leaf script is present
   J trleafscript <template> <key hex,…> <script hex>   tapscript of pk / multi_a:k / sortedmulti_a:k /
         pkh_older:n over 33- or 32-byte keys (Spec/TapTemplates.lean: x-only pushes, x-only sort, x-only hash)
   J trwitnessmin <shape> <script hex,…> <chosen script> <chosen control block>   among the positions that
@@ -48,6 +58,7 @@ import MsVerif.Lemmas.TapTreeBip341
 import MsVerif.Spec.Bech32m
 import MsVerif.Spec.Outputs
 import MsVerif.Spec.TapTemplates
+import MsVerif.Lemmas.TapTreeDecode
 
 namespace MsVerif.Driver
 open MsVerif.Spec MsVerif.Tap
@@ -250,6 +261,50 @@ def minDepthOf (t : Tree Hash.Bytes) (script : Hash.Bytes) : Option Nat :=
   ((Tree.depths t).filter (fun p => p.2 == script)).foldl
     (fun m p => match m with | none => some p.1 | some d => some (min d p.1)) none
 
+/-- leaves-with-depths as a sorted list of strings (multiset comparison) -/
+def sortedStrs (l : List String) : List String := l.foldr (fun x acc =>
+  let rec ins (x : String) : List String → List String
+    | [] => [x]
+    | y :: ys => if y < x then y :: ins x ys else x :: y :: ys
+  ins x acc) []
+
+def pairOfColon (s : String) : Option (String × String) :=
+  match s.splitOn ":" with
+  | [a, b] => some (a, b)
+  | _ => none
+
+def trPsbtJudge (shape : String) (scripts : List Hash.Bytes) (ik : Hash.Bytes) (root : String)
+    (outL inL : String) : Option String := do
+  let t ← parseShape shape
+  let root ← Hash.ofHex root
+  match relabel t scripts with
+  | some (tree, []) =>
+    let rp := Tree.rootAndPaths Bip341.alg tree
+    if rp.1 != root then pure "bad:merkle-root" else
+    -- output side: the BIP 371 depth list
+    let outPairs ← (if outL == "-" then some [] else (outL.splitOn ",").mapM pairOfColon)
+    let outDs ← outPairs.mapM (fun p => do let d ← p.1.toNat?; let sc ← Hash.ofHex p.2; pure (d, sc))
+    let specDs := (Tree.depths tree).map (fun p => toString p.1 ++ ":" ++ Hash.toHex p.2)
+    let gotDs := outDs.map (fun p => toString p.1 ++ ":" ++ Hash.toHex p.2)
+    if sortedStrs specDs != sortedStrs gotDs then pure "bad:tap-tree-leaves" else
+    match Tree.ofDepths outDs with
+    | none => pure "bad:tap-tree-not-a-tree"
+    | some t' =>
+      if Tree.root Bip341.alg t' != root then pure "bad:tap-tree-root" else
+      -- input side: tap_scripts
+      let inPairs ← (if inL == "-" then some [] else (inL.splitOn ",").mapM pairOfColon)
+      let ins ← inPairs.mapM (fun p => do let cb ← Hash.ofHex p.1; let sc ← Hash.ofHex p.2; pure (cb, sc))
+      let badIn := ins.any (fun p =>
+        match Bip341.parseControlBlock p.1 with
+        | none => true
+        | some c => c.leafVersion != Bip341.tapscriptVersion || c.internalKey != ik ||
+                    Bip341.committedRoot c p.2 != root)
+      if badIn then pure "bad:tap-scripts-commitment"
+      else if !(scripts.all (fun sc => ins.any (fun p => p.2 == sc))) then pure "bad:tap-scripts-missing-leaf"
+      else if !(ins.all (fun p => scripts.contains p.2)) then pure "bad:tap-scripts-foreign-leaf"
+      else pure "ok"
+  | _ => pure "bad:script-count"
+
 def limitVerdict (t : Tree Nat) : String := if Tree.height t ≤ maxDepth then "accept" else "ERR"
 
 def opsTap (kind op : String) (args : List String) : Option String :=
@@ -307,6 +362,23 @@ def opsTap (kind op : String) (args : List String) : Option String :=
       else if c.internalKey != ik then pure "bad:internal-key"
       else if Bip341.committedRoot c script != root then pure "bad:commitment"
       else pure "ok"
+  | "J", "rdepthspec", [_route, shape, ans] => do
+    let t ← parseShape shape
+    pure (okbadT (showDepths (Tree.depths t) == ans))
+  | "J", "rmerklespec", [_route, shape, ans] => do
+    let t ← parseShape shape
+    pure (okbadT (taprootSpec t == ans))
+  | "J", "rmerklespecl", [_route, shape, ans] => do
+    let t ← parseShape shape
+    pure (okbadT (taprootSpecL t == ans))
+  | "J", "trdepthset", [_route, shape, ans] => do
+    let t ← parseShape shape
+    let spec := (Tree.depths t).map (fun p => toString p.1 ++ ":" ++ toString p.2)
+    pure (okbadT (sortedStrs spec == sortedStrs (ans.splitOn ",")))
+  | "J", "trrefused", [_cls, _input, verdict] => pure (okbadT (verdict == "ERR"))
+  | "J", "trpsbt", [shape, scripts, ik, root, outL, inL] => do
+    let scripts ← tapHexList scripts; let ik ← Hash.ofHex ik
+    trPsbtJudge shape scripts ik root outL inL
   | "J", "trleafscript", [tmpl, keys, script] => do
     let keys ← tapHexList keys; let script ← Hash.ofHex script
     match TapTemplates.script tmpl keys with
